@@ -262,3 +262,356 @@ def merge_dict_updates(tree) -> int:
                     continue
                 i += 1
     return n
+
+
+# --------------------------------------------------------------------------------------------------- module constants
+def _immutable_literal(v) -> bool:
+    if isinstance(v, ast.Constant):
+        return isinstance(v.value, (str, int, float, bool, bytes)) or v.value is None
+    if isinstance(v, ast.UnaryOp) and isinstance(v.op, ast.USub) and isinstance(v.operand, ast.Constant) and isinstance(v.operand.value, (int, float)):
+        return True
+    if isinstance(v, ast.Tuple):
+        return all(_immutable_literal(e) for e in v.elts)
+    return False
+
+
+def module_globals(tree) -> List[str]:
+    out = set()
+    for st in tree.body:
+        for n in ast.walk(st) if not isinstance(st, (ast.FunctionDef, ast.AsyncFunctionDef, ast.ClassDef)) else [st]:
+            if isinstance(n, (ast.FunctionDef, ast.AsyncFunctionDef, ast.ClassDef)):
+                out.add(n.name)
+            elif isinstance(n, ast.Name) and isinstance(n.ctx, ast.Store):
+                out.add(n.id)
+            elif isinstance(n, ast.alias):
+                out.add((n.asname or n.name).split(".")[0])
+    return sorted(out)
+
+
+def module_constants(tree) -> Dict[str, ast.AST]:
+    """NAME -> literal, for the module-level names bound exactly once (in the whole module) to an immutable literal"""
+    cand = {}
+    for st in tree.body:
+        if isinstance(st, ast.Assign) and len(st.targets) == 1 and isinstance(st.targets[0], ast.Name) and _immutable_literal(st.value):
+            cand.setdefault(st.targets[0].id, []).append(st.value)
+        elif isinstance(st, ast.AnnAssign) and isinstance(st.target, ast.Name) and st.value is not None and _immutable_literal(st.value):
+            cand.setdefault(st.target.id, []).append(st.value)
+    out = {k: v[0] for k, v in cand.items() if len(v) == 1}
+    if not out:
+        return out
+    stores = {}
+    for n in ast.walk(tree):
+        if isinstance(n, ast.Name) and isinstance(n.ctx, (ast.Store, ast.Del)) and n.id in out:
+            stores[n.id] = stores.get(n.id, 0) + 1
+        elif isinstance(n, (ast.Global, ast.Nonlocal)):
+            for nm in n.names:
+                stores[nm] = 99
+        elif isinstance(n, (ast.arg,)) and n.arg in out:
+            stores[n.arg] = 99   # shadowed somewhere: leave it alone
+        elif isinstance(n, ast.alias) and (n.asname or n.name) in out:
+            stores[n.asname or n.name] = 99
+    return {k: v for k, v in out.items() if stores.get(k, 0) == 1}
+
+
+def global_loads(fnode) -> List[str]:
+    """names a function reads that it does not bind itself"""
+    own = set(local_names(fnode)) | set(_params(fnode))
+    return sorted({n.id for n in ast.walk(fnode) if isinstance(n, ast.Name) and isinstance(n.ctx, ast.Load) and n.id not in own})
+
+
+def inline_module_constants(tree, ref_mod: dict) -> int:
+    consts = module_constants(tree)
+    if not consts:
+        return 0
+    refglob = set(ref_mod.get("<module>", {}).get("globals", []))
+    if not refglob:
+        return 0
+    n = 0
+    new = {k: v for k, v in consts.items() if k not in refglob}
+    if new:
+        sub = _Subst(new)
+        for i, st in enumerate(tree.body):
+            if isinstance(st, ast.Assign) and len(st.targets) == 1 and isinstance(st.targets[0], ast.Name) and st.targets[0].id in new:
+                continue
+            before = ast.dump(st)
+            tree.body[i] = sub.visit(st)
+            if ast.dump(tree.body[i]) != before:
+                n += 1
+    old = {k: v for k, v in consts.items() if k in refglob}
+    if old:
+        for q, fn in functions_of(tree):
+            r = ref_mod.get(q)
+            if not r or "gloads" not in r:
+                continue
+            extra = {k: v for k, v in old.items() if k not in r["gloads"] and any(isinstance(x, ast.Name) and x.id == k and isinstance(x.ctx, ast.Load) for x in ast.walk(fn))}
+            extra = {k: v for k, v in extra.items() if k not in set(local_names(fn)) | set(_params(fn))}
+            if extra:
+                _Subst(extra).visit(fn)
+                n += 1
+    if n:
+        ast.fix_missing_locations(tree)
+    return n
+
+
+# --------------------------------------------------------------------------------------------------- items() / unpacking
+def all_names(fnode) -> List[str]:
+    return sorted({n.id for n in ast.walk(fnode) if isinstance(n, ast.Name)} | {a.arg for a in ast.walk(fnode) if isinstance(a, ast.arg)})
+
+
+def for_targets(fnode) -> List[List[str]]:
+    return sorted([_unparse(l.iter), _unparse(l.target)] for l in ast.walk(fnode) if isinstance(l, ast.For))
+
+
+def _mutates(stmts, text: str) -> bool:
+    for s2 in stmts:
+        for n in ast.walk(s2):
+            if isinstance(n, (ast.Subscript, ast.Attribute, ast.Name)) and isinstance(getattr(n, "ctx", None), (ast.Store, ast.Del)):
+                if _unparse(n) == text or (isinstance(n, ast.Subscript) and _unparse(n.value) == text):
+                    return True
+            if isinstance(n, ast.Call) and isinstance(n.func, ast.Attribute) and _unparse(n.func.value) == text and n.func.attr in ("pop", "update", "clear", "setdefault", "popitem", "append", "remove"):
+                return True
+    return False
+
+
+def items_to_keys(fnode, ref: dict) -> int:
+    """`for K, V in D.items()` with V a name the reference function does not have -> `for K in D` and V := D[K]"""
+    known = set(ref.get("names", []))
+    if not known:
+        return 0
+    n = 0
+
+    def candidate(target, it):
+        if not (isinstance(target, ast.Tuple) and len(target.elts) == 2 and isinstance(target.elts[1], ast.Name) and target.elts[1].id not in known):
+            return None
+        if not (isinstance(it, ast.Call) and isinstance(it.func, ast.Attribute) and it.func.attr == "items" and not it.args and not it.keywords):
+            return None
+        d = it.func.value
+        if not isinstance(d, (ast.Name, ast.Attribute)):
+            return None
+        k = target.elts[0]
+        if not (isinstance(k, ast.Name) or (isinstance(k, ast.Tuple) and all(isinstance(e, ast.Name) for e in k.elts))):
+            return None
+        return d, k, target.elts[1].id
+
+    def key_expr(k):
+        e = copy.deepcopy(k)
+        for x in ast.walk(e):
+            if hasattr(x, "ctx"):
+                x.ctx = ast.Load()
+        return e
+    for node in ast.walk(fnode):
+        if isinstance(node, ast.For):
+            c = candidate(node.target, node.iter)
+            if c is None:
+                continue
+            d, k, v = c
+            knames = {x.id for x in ast.walk(k) if isinstance(x, ast.Name)}
+            if _mutates(node.body, _unparse(d)) or _stores(ast.Module(body=node.body, type_ignores=[]), knames | {v}):
+                continue
+            sub = _Subst({v: ast.Subscript(value=copy.deepcopy(d), slice=key_expr(k), ctx=ast.Load())})
+            node.body = [sub.visit(s2) for s2 in node.body]
+            node.target, node.iter = k, d
+            n += 1
+        elif isinstance(node, (ast.ListComp, ast.SetComp, ast.DictComp, ast.GeneratorExp)):
+            for gi, g in enumerate(node.generators):
+                c = candidate(g.target, g.iter)
+                if c is None:
+                    continue
+                d, k, v = c
+                sub = _Subst({v: ast.Subscript(value=copy.deepcopy(d), slice=key_expr(k), ctx=ast.Load())})
+                g.ifs = [sub.visit(x) for x in g.ifs]
+                for g2 in node.generators[gi + 1:]:
+                    g2.iter = sub.visit(g2.iter)
+                    g2.ifs = [sub.visit(x) for x in g2.ifs]
+                for fld in ("elt", "key", "value"):
+                    if hasattr(node, fld):
+                        setattr(node, fld, sub.visit(getattr(node, fld)))
+                g.target, g.iter = k, d
+                n += 1
+    if n:
+        ast.fix_missing_locations(fnode)
+    return n
+
+
+def unpack_to_index(fnode, ref: dict) -> int:
+    """`a, b = p` (p a plain name, a / b names the reference does not have) -> a := p[0], b := p[1];
+    `for a, b in S` where the reference loops `for m in S` -> `for m in S` with a := m[0], b := m[1]"""
+    known = set(ref.get("names", []))
+    if not known:
+        return 0
+    n = 0
+    for owner, fld, blk in _blocks(fnode):
+        i = 0
+        while i < len(blk):
+            st = blk[i]
+            if isinstance(st, ast.Assign) and len(st.targets) == 1 and isinstance(st.targets[0], ast.Tuple) and isinstance(st.value, ast.Name) \
+                    and all(isinstance(t, ast.Name) and t.id not in known for t in st.targets[0].elts) and len(st.targets[0].elts) >= 2:
+                names = [t.id for t in st.targets[0].elts]
+                rest = blk[i + 1:]
+                total_stores = [x for x in ast.walk(fnode) if isinstance(x, ast.Name) and isinstance(x.ctx, ast.Store) and x.id in names]
+                all_loads = _loads(fnode, set(names))
+                rest_loads = [x for s2 in rest for x in _loads(s2, set(names))]
+                if len(total_stores) == len(names) and len(all_loads) == len(rest_loads) and not any(_stores(s2, {st.value.id}) for s2 in rest):
+                    m = {nm: ast.Subscript(value=ast.Name(id=st.value.id, ctx=ast.Load()), slice=ast.Constant(value=j), ctx=ast.Load()) for j, nm in enumerate(names)}
+                    sub = _Subst(m)
+                    for k in range(i + 1, len(blk)):
+                        blk[k] = sub.visit(blk[k])
+                    del blk[i]
+                    if not blk:
+                        blk.append(ast.copy_location(ast.Pass(), st))
+                    n += 1
+                    continue
+            i += 1
+    ref_for = {}
+    for it, tg in ref.get("fors", []):
+        ref_for.setdefault(it, []).append(tg)
+    for l in [x for x in ast.walk(fnode) if isinstance(x, ast.For)]:
+        if isinstance(l.target, ast.Tuple) and all(isinstance(t, ast.Name) and t.id not in known for t in l.target.elts):
+            tg = ref_for.get(_unparse(l.iter), [])
+            if len(tg) == 1 and tg[0].isidentifier() and not any(isinstance(x, ast.Name) and x.id == tg[0] for x in ast.walk(fnode)):
+                names = [t.id for t in l.target.elts]
+                if _stores(ast.Module(body=l.body + l.orelse, type_ignores=[]), set(names)):
+                    continue
+                m = {nm: ast.Subscript(value=ast.Name(id=tg[0], ctx=ast.Load()), slice=ast.Constant(value=j), ctx=ast.Load()) for j, nm in enumerate(names)}
+                sub = _Subst(m)
+                l.body = [sub.visit(s2) for s2 in l.body]
+                l.target = ast.copy_location(ast.Name(id=tg[0], ctx=ast.Store()), l.target)
+                n += 1
+    if n:
+        ast.fix_missing_locations(fnode)
+    return n
+
+
+# --------------------------------------------------------------------------------------------------- tuple records
+def _record_classes(tree, refglob) -> Dict[str, List[str]]:
+    out = {}
+    for st in tree.body:
+        if isinstance(st, ast.ClassDef) and st.name not in refglob and any(_unparse(b) in ("NamedTuple", "typing.NamedTuple") for b in st.bases):
+            fields = [s.target.id for s in st.body if isinstance(s, ast.AnnAssign) and isinstance(s.target, ast.Name)]
+            extra = [s for s in st.body if not isinstance(s, ast.AnnAssign) and not (isinstance(s, ast.Expr) and isinstance(s.value, ast.Constant))]
+            if fields and not extra:
+                out[st.name] = fields
+        elif isinstance(st, ast.Assign) and len(st.targets) == 1 and isinstance(st.targets[0], ast.Name) and st.targets[0].id not in refglob and isinstance(st.value, ast.Call) \
+                and _unparse(st.value.func) in ("namedtuple", "collections.namedtuple") and len(st.value.args) == 2 and not st.value.keywords:
+            f = st.value.args[1]
+            fields = None
+            if isinstance(f, (ast.List, ast.Tuple)) and all(isinstance(e, ast.Constant) and isinstance(e.value, str) for e in f.elts):
+                fields = [e.value for e in f.elts]
+            elif isinstance(f, ast.Constant) and isinstance(f.value, str):
+                fields = f.value.replace(",", " ").split()
+            if fields:
+                out[st.targets[0].id] = fields
+    return out
+
+
+def untuple_records(tree, ref_mod: dict) -> int:
+    refglob = set(ref_mod.get("<module>", {}).get("globals", []))
+    if not refglob:
+        return 0
+    recs = _record_classes(tree, refglob)
+    if not recs:
+        return 0
+    n = 0
+
+    class Ctor(ast.NodeTransformer):
+        def visit_Call(self, node):
+            nonlocal n
+            self.generic_visit(node)
+            if isinstance(node.func, ast.Name) and node.func.id in recs and not any(isinstance(a, ast.Starred) for a in node.args) and all(k.arg for k in node.keywords):
+                fields = recs[node.func.id]
+                vals = list(node.args)
+                kw = {k.arg: k.value for k in node.keywords}
+                for f in fields[len(vals):]:
+                    if f not in kw:
+                        return node
+                    vals.append(kw[f])
+                if len(vals) == len(fields):
+                    n += 1
+                    return ast.copy_location(ast.Tuple(elts=vals, ctx=ast.Load()), node)
+            return node
+    Ctor().visit(tree)
+    all_fields = {}
+    for cname, fields in recs.items():
+        for j, f in enumerate(fields):
+            all_fields.setdefault(f, set()).add((cname, j))
+    for q, fn in functions_of(tree):
+        loc = set(local_names(fn))
+        taken0 = {y.id for y in ast.walk(fn) if isinstance(y, ast.Name)} | set(_params(fn))
+        # regions: (name, binding statement or loop, the statements in which the binding is read)
+        regions = []
+        for owner, fld, blk in _blocks(fn):
+            for i2, st in enumerate(blk):
+                if isinstance(st, ast.Assign) and len(st.targets) == 1 and isinstance(st.targets[0], ast.Name) and st.targets[0].id in loc:
+                    nm = st.targets[0].id
+                    rest = []
+                    stopped = False
+                    for s2 in blk[i2 + 1:]:
+                        if isinstance(s2, ast.Assign) and len(s2.targets) == 1 and isinstance(s2.targets[0], ast.Name) and s2.targets[0].id == nm:
+                            stopped = True
+                            break
+                        rest.append(s2)
+                    # the body of a `try` whose handlers all leave: what follows the try is reached only through the body
+                    if not stopped and isinstance(owner, ast.Try) and fld == "body" and not owner.orelse and not owner.finalbody and owner.handlers \
+                            and all(not _falls_through(h.body) for h in owner.handlers):
+                        for o2, f2, b2 in _blocks(fn):
+                            if owner in b2:
+                                for s2 in b2[b2.index(owner) + 1:]:
+                                    if isinstance(s2, ast.Assign) and len(s2.targets) == 1 and isinstance(s2.targets[0], ast.Name) and s2.targets[0].id == nm:
+                                        break
+                                    rest.append(s2)
+                    regions.append((nm, st, rest))
+                elif isinstance(st, ast.For) and isinstance(st.target, ast.Name) and st.target.id in loc:
+                    regions.append((st.target.id, st, st.body))
+        covered = {}
+        for nm, st, rest in regions:
+            for s2 in rest:
+                for x in ast.walk(s2):
+                    if isinstance(x, ast.Name) and x.id == nm:
+                        covered[id(x)] = covered.get(id(x), 0) + 1
+        for nm, st, rest in regions:
+            attrs = [x for s2 in rest for x in ast.walk(s2) if isinstance(x, ast.Attribute) and isinstance(x.value, ast.Name) and x.value.id == nm]
+            if not attrs or any(isinstance(a.ctx, (ast.Store, ast.Del)) for a in attrs):
+                continue
+            cands = None
+            for a in attrs:
+                cs = {c for c, _j in all_fields.get(a.attr, set())}
+                cands = cs if cands is None else cands & cs
+            if not cands:
+                continue
+            fields = recs[sorted(cands)[0]]
+            names_in = [x for s2 in rest for x in ast.walk(s2) if isinstance(x, ast.Name) and x.id == nm]
+            # every occurrence of the name in the region is a field read of this binding, and no other region sees them
+            simple = all(covered.get(id(x), 0) == 1 for x in names_in) and all(isinstance(x.ctx, ast.Load) for x in names_in) and len(names_in) == len(attrs) \
+                and not any(isinstance(x, ast.Name) and x.id == nm and isinstance(x.ctx, ast.Store) for s2 in rest for x in ast.walk(s2))
+            used = {a.attr for a in attrs}
+            fresh = [f if f in used else "_" for f in fields]
+            if simple and not any(f in taken0 for f in fresh if f != "_"):
+                tgt = ast.Tuple(elts=[ast.Name(id=f, ctx=ast.Store()) for f in fresh], ctx=ast.Store())
+                if isinstance(st, ast.Assign):
+                    st.targets = [ast.copy_location(tgt, st.targets[0])]
+                else:
+                    st.target = ast.copy_location(tgt, st.target)
+
+                class Rd(ast.NodeTransformer):
+                    def visit_Attribute(self, node):
+                        self.generic_visit(node)
+                        if isinstance(node.value, ast.Name) and node.value.id == nm and node.attr in fields:
+                            return ast.copy_location(ast.Name(id=node.attr, ctx=ast.Load()), node)
+                        return node
+                for k2 in range(len(rest)):
+                    rest[k2] = Rd().visit(rest[k2])
+                # `rest` is a copy for assignments: write the statements back into their block
+                # the statements of `rest` were transformed in place (NodeTransformer keeps statement identity)
+            else:
+                class Ix(ast.NodeTransformer):
+                    def visit_Attribute(self, node):
+                        self.generic_visit(node)
+                        if isinstance(node.value, ast.Name) and node.value.id == nm and node.attr in fields:
+                            return ast.copy_location(ast.Subscript(value=node.value, slice=ast.Constant(value=fields.index(node.attr)), ctx=ast.Load()), node)
+                        return node
+                for s2 in rest:
+                    Ix().visit(s2)
+            n += 1
+    if n:
+        ast.fix_missing_locations(tree)
+    return n
